@@ -116,9 +116,18 @@ def live_children(W, exclude=()):
     return [pid for pid, p in W.sim.procs.items() if not p.exited and pid not in exclude]
 
 
-def h_start(scn, kind, k, step, offset, rst):
+PKS = 20        # statements of the constructing thread inside _start() at which it may be slow (the forwarding thread runs meanwhile)
+
+
+def _slow_caller(W, pk):
+    if pk:
+        wsim.ParentDelay(W, "._start:", pk - 1, delay=2.0)
+
+
+def h_start(scn, kind, k, step, offset, rst, pk=0):
     with notrace():
         scn_ = conc(scn, 6)
+        pk_ = conc(pk, PKS + 1) if scn_ >= 3 else 0
         kind_ = conc(kind, 2)
         rst_ = conc(rst, 2)
         T.reset()
@@ -147,18 +156,21 @@ def h_start(scn, kind, k, step, offset, rst):
                 kk = [2, 5][kind_]
                 step_ = conc(step, 6)
                 off_ = conc(offset, max(CTRL_FRAME_LEN, INFO_FRAME_LEN)) if step_ in (2, 4) else 0
-                W = wsim.World()
+                W = wsim.World(parent_points=bool(pk_))
+                _slow_caller(W, pk_)
                 scripted_server(W, step_, off_, rst_)
                 label.append("step%d" % step_)
                 sig, inter = attempt(W, lambda: wsim.KINDS[kk](T.work, args=[0, 1], host=SCRIPT_ADDR),
                                      "scripted-server-step-%d" % step_, must_fail=(step_ != 5))
             elif scn_ == 4:       # unknown context id
                 kk = [2, 5][kind_]
-                W = wsim.World(server=True)
+                W = wsim.World(server=True, parent_points=bool(pk_))
+                _slow_caller(W, pk_)
                 sig, inter = attempt(W, lambda: wsim.KINDS[kk](None, host=wsim.SERVER_ADDR, context=99), "unknown-context-id", must_fail=True)
             else:                 # nobody listening
                 kk = [2, 5][kind_]
-                W = wsim.World()
+                W = wsim.World(parent_points=bool(pk_))
+                _slow_caller(W, pk_)
                 sig, inter = attempt(W, lambda: wsim.KINDS[kk](T.work, args=[0, 1], host=wsim.SERVER_ADDR), "server-unreachable", must_fail=True)
             ev("c20", *label)
             return Outcome(sig, inter, "")
@@ -223,7 +235,7 @@ KBACK = max(_count(2), _count(5)) + 1
 KSRV = max(_count(2, select=lambda a: a.kind == "server"), _count(5, select=lambda a: a.kind == "server")) + 1
 
 _params = OrderedDict([("scn", (0, 5)), ("kind", (0, 1)), ("k", (0, max(KPROC, KBACK, KSRV))), ("step", (0, 5)),
-                       ("offset", (0, max(CTRL_FRAME_LEN, INFO_FRAME_LEN) - 1)), ("rst", (0, 1))])
+                       ("offset", (0, max(CTRL_FRAME_LEN, INFO_FRAME_LEN) - 1)), ("rst", (0, 1)), ("pk", (0, PKS))])
 
 _FUNCS = ["pyworkers.remote:RemoteWorker._start", "pyworkers.remote:RemoteWorker._run_frontend", "pyworkers.remote:RemoteWorker.__init__",
           "pyworkers.remote:RemoteWorker.__setstate__", "pyworkers.remote:recv_msg", "pyworkers.remote:send_msg", "pyworkers.remote:sanitize_target_host",
@@ -233,8 +245,10 @@ _FUNCS = ["pyworkers.remote:RemoteWorker._start", "pyworkers.remote:RemoteWorker
 H_START = Harness(
     "start", "vf.props.c20:h_start", _params,
     tiers={
-        "quick": {"partition": ["scn", "kind"], "timeout": 300, "twin_fixed": {"scn": 3, "kind": 0}},
-        "thorough": {"partition": ["scn", "kind", "rst", "step"], "timeout": 900, "twin_fixed": {"scn": 3, "kind": 0, "rst": 0, "step": 2}},
+        "quick": {"partition": ["scn", "kind"], "timeout": 300, "twin_fixed": {"scn": 3, "kind": 0},
+                  "extra_pre": ["pk == 0 or (scn >= 3 and offset == 0 and rst == 0)"]},
+        "thorough": {"partition": ["scn", "kind", "rst", "step"], "timeout": 900, "twin_fixed": {"scn": 3, "kind": 0, "rst": 0, "step": 2},
+                     "extra_pre": ["pk == 0 or (scn >= 3 and offset <= 1)"]},
     },
     functions=_FUNCS,
 )
@@ -242,6 +256,8 @@ H_START = Harness(
 SPEC = PropSpec(
     "C20", [H_START],
     assumptions=[
+        "pk > 0 (scenarios 3-5): the constructing thread sleeps 2 model seconds at its pk-th statement inside _start(), so the forwarding thread it has "
+        "just started runs (and fails its handshake) in between",
         "simulation model of C01; the scripted server sends the two server-to-client frames exactly as the real send_msg produces them and cuts them at a symbolic offset",
         "killing the server process closes its descriptors (FIN); its already spawned backend children are orphans that go on running",
         "'no child left behind' is checked 30 model seconds after a failed construction",
